@@ -13,8 +13,8 @@ theorem run_slice_read {α} (n : Nat) (k : Bytes → Prog α) (s : Bytes) :
     run sliceInput (.read n k) s =
       if n > s.length then (.err, s) else run sliceInput (k (s.take n)) (s.drop n) := by
   by_cases h : n > s.length
-  · simp [run, sliceInput, h]
-  · simp [run, sliceInput, h]
+  · simp [run, sliceInput, sliceRead_eq, h]
+  · simp [run, sliceInput, sliceRead_eq, h]
 
 @[simp] theorem run_slice_readByte_nil {α} (k : UInt8 → Prog α) :
     run sliceInput (.readByte k) [] = (.err, []) := rfl
